@@ -77,6 +77,10 @@ func genBep44(r *rng, idx int) srvCase {
 	salt := salts[r.intn(3)]
 	curVal := someValue(r)
 	seqs := []int64{1, 2, 2, 3, 1, 5, 4, -1, 0, 9223372036854775807, -9223372036854775808}
+	if c.cfg.storeFail {
+		// the underlying store rejects seq = 3 mod 7: make sure well-formed puts reach it
+		seqs = []int64{3, 4, 10, 10, 11, 17, 24, 1, 31, 38}
+	}
 	// a token for src: via get
 	tgt := sha1.Sum(append(pub[:], salt...))
 	getTok := func() sev {
@@ -120,7 +124,11 @@ func genBep44(r *rng, idx int) srvCase {
 				a.Salt = slt
 				signer := priv
 				sseq, ssalt, sbv := seq, slt, bv
-				switch r.intn(8) {
+				variant := r.intn(8)
+				if c.cfg.storeFail && r.intn(3) != 0 {
+					variant = 7
+				}
+				switch variant {
 				case 0:
 					signer = priv2 // valid for another key
 				case 1:
